@@ -270,6 +270,8 @@ def finish(prop: str, tier: str, level: str, col: Collector, t0: float, rule: st
             sys.stderr.write("  witness=" + json.dumps(ent["witnesses"][0])[:1500] + "\n")
 
     wall = time.time() - t0
+    if os.environ.get("VERIF_NO_EVIDENCE"):
+        write_evidence = False  # runs against scratch copies (seeded changes) leave no evidence
     if write_evidence:
         cov: Dict[str, Any] = {
             "evaluations": int(col.evaluations),
